@@ -226,10 +226,15 @@ def c18(ck):
         n_fixed = len(seqs)
         import itertools as _it
         alpha = {"A": lambda i: rq(A, ["r"], i), "B": lambda i: rq(Bn, ["r"], i), "I": lambda i: req("org.varlink.service.GetInfo"),
-                 "R": lambda i: req("org.varlink.resolver.Resolve", {"interface": A})}
+                 "R": lambda i: req("org.varlink.resolver.Resolve", {"interface": A}),
+                 # oneway variants: nothing may come back for them, whoever ends up answering
+                 "i": lambda i: req("org.varlink.service.GetInfo", None, oneway=True), "a": lambda i: rq(A, ["r"], i, oneway=True)}
         cache_seqs = []
         for pat in _it.product("ABIR", repeat=3):
             cache_seqs.append([alpha[x](i) for i, x in enumerate(pat)])
+        for pat in _it.product("AIia", repeat=3):
+            if "i" in pat or "a" in pat:
+                cache_seqs.append([alpha[x](i) for i, x in enumerate(pat)])
         seqs += cache_seqs
         modes = ["resolver", "connect", "activate", "bridge"]
         for si, seq in enumerate(seqs):
